@@ -176,6 +176,8 @@ def generate(config, key=None, verbose=True):
         shutil.rmtree(out, ignore_errors=True)
         os.makedirs(out)
         tgt = os.path.join(CACHE, "tgt-%s" % base_config(config))
+        if base_config(config) == "tfeat" and config.endswith(":nodbg"):
+            tgt += "-nodbg"
         # cargo's freshness cache would skip the wrapper: drop the fingerprints of
         # every workspace member / fixture crate so they are re-checked through factgen.
         for fp in glob.glob(os.path.join(tgt, "debug/.fingerprint/tracing*")) + \
@@ -197,7 +199,6 @@ def generate(config, key=None, verbose=True):
             extra_args = ["--features", "tracing/" + feat]
             if dbg == "nodbg":
                 env["RUSTFLAGS"] += " -Cdebug-assertions=off"
-                env["CARGO_TARGET_DIR"] = tgt + "-nodbg"
         if cfg["kind"] == "repo":
             cwd = REPO
         else:
